@@ -109,12 +109,12 @@ ASSUMPTIONS = [
     "their counts appear as excluded:* classes",
 ]
 
-EXCLUDE_D9 = True
-EXCLUDE_GENERIC_READ = True
-EXCLUDE_TOTEXT_STYLE = True
+EXCLUDE_D9 = False
+EXCLUDE_GENERIC_READ = False
+EXCLUDE_TOTEXT_STYLE = False
 EXCLUDE_NAME_JUST_POS = True
-EXCLUDE_REL_ORIGIN = True
-EXCLUDE_RELATIVE_EQ = True
+EXCLUDE_REL_ORIGIN = False
+EXCLUDE_RELATIVE_EQ = False
 
 _FACTORIES = ("plain", "versioned", "btree")
 _NEUTRAL = {47, 50, 25}  # NSEC, NSEC3, KEY (dns.node documents these as compatible with CNAME)
